@@ -50,7 +50,6 @@ def corr_generated(modules, orders=('r1', 'r2', 'r3'), shear=False):
                 tot['evaluations'] += r['compared']
                 tot['distinct'] += 1 if r['compared'] else 0
                 tot['disagreements'] += [dict(d, case=oracles.case_id(c)) for d in r['disagreements']]
-                tot['disagreements'] += [dict(module='?', name=m, why='model input not found on the object') for m in r['missing_inputs']]
                 tot['unchecked'] |= set(r['unchecked'])
                 tot['max_rel'] = max(tot['max_rel'], r['max_rel'])
                 if len(tot['samples']) < 2:
